@@ -1,5 +1,6 @@
 import CallbagModel.Fun.Relay
 import CallbagModel.Fun.Take
+import CallbagModel.Inv.Fuse
 /-!
 # C07 — reactive programming: unary operators are incremental list functions
 
@@ -35,5 +36,41 @@ theorem C07_skip {α : Type} [DecidableEq α] (n : Nat) :
 theorem C07_take {α : Type} [DecidableEq α] (max : Nat) :
     ∀ s, SReach (Take.machine α max) s → EnvTurn s → takeOk max s.tr = true :=
   TakeFun.take_spec max
+
+/-! ## pipelines: `pipe!(source, op₁, op₂)` of two relays
+
+`compose M₁ M₂` (Ops/Compose.lean) is the pipeline as ONE machine (validated against the crate by `./check`, chain instances);
+`Fuse.compose_relay_refines`: at its boundary it is a reachable configuration of the single relay with the fused transfer function
+(same trace, same monitor state).  Hence the incremental-list-function statement holds of two-stage pipelines with the composed
+function, and, since the fused kind is again a relay kind, of chains of any length by iteration. -/
+
+theorem C07_pipe_of_two_relays {σ₁ σ₂ α β γ : Type} [DecidableEq γ] (k₁ : Relay.Kind σ₁ α β) (k₂ : Relay.Kind σ₂ β γ)
+    (h₁ : k₁.slotted = false → ∀ s a, (k₁.xfer s a).2 ≠ none) (h₂ : k₂.slotted = false → ∀ s b, (k₂.xfer s b).2 ≠ none) :
+    ∀ s, SReach (compose (Relay.machine k₁) (Relay.machine k₂)) s → EnvTurn s →
+      relayOk (Fuse.fuse k₁ k₂).xfer (k₁.seed, k₂.seed) s.tr = true := by
+  intro s hs ht
+  obtain ⟨s', hr, ht', htr, _⟩ := Fuse.compose_relay_refines k₁ k₂ h₁ h₂ s hs ht
+  rw [← htr]
+  exact RelayFun.relay_spec (Fuse.fuse k₁ k₂) (Fuse.fuse_side k₁ k₂ h₁ h₂) s' hr ht'
+
+/-- worked instance: `pipe!(source, map(f), filter(p))` delivers `(xs.map f).filter p` -/
+theorem C07_pipe_map_filter {α β : Type} (f : α → β) (p : β → Bool) :
+    ∀ s, SReach (compose (Relay.machine (Relay.map f)) (Relay.machine (Relay.filter p))) s → EnvTurn s →
+      recvData 0 s.tr = ((sentData 0 s.tr).map f).filter p := by
+  intro s hs ht
+  have h₁ : (Relay.map f).slotted = false → ∀ s a, ((Relay.map f).xfer s a).2 ≠ none := fun _ _ _ => by simp [Relay.map]
+  have h₂ : (Relay.filter p).slotted = false → ∀ s b, ((Relay.filter p).xfer s b).2 ≠ none := fun h => by simp [Relay.filter] at h
+  obtain ⟨s', hr, ht', htr, _⟩ := Fuse.compose_relay_refines _ _ h₁ h₂ s hs ht
+  rw [← htr, RelayFun.relay_io _ (Fuse.fuse_side _ _ h₁ h₂) s' hr ht']
+  generalize sentData 0 s'.tr = xs
+  have : ∀ (st : Unit × Unit), xferOut (Fuse.fuse (Relay.map f) (Relay.filter p)).xfer st xs = (xs.map f).filter p := by
+    induction xs with
+    | nil => intro st; rfl
+    | cons a t ih =>
+      intro st
+      have := ih ((), ())
+      simp only [xferOut, Fuse.fuse, Relay.map, Relay.filter, List.map_cons, List.filter_cons] at this ⊢
+      by_cases hp : p (f a) = true <;> simp [hp, this]
+  exact this _
 
 end Cb.Thm
